@@ -1258,6 +1258,118 @@ def run(ck: core.Check):
     if "real_bc" in state:
         guard("operand spellings of Shape.broadcast / can_broadcast", facet_shape_spellings)
 
+    def facet_glue():
+        """Round 10 (tie H for `Model/TypesGlue.lean`): `Shape.__getitem__` with int indices (negative, out of range,
+        unknown rank), `Shape.__bool__`, `shape[-1-i]` or 1, `unwrap_tensor/sequence/optional`, `_is_concrete` - the
+        model (driver op `glue`) against the real methods on all shapes / all types of the bounded domain; and the
+        statement of `broadcast_dimwise` evaluated with the REAL `__getitem__` and `_broadcast_elem` on every pair of
+        shapes of known rank the real `broadcast` accepts."""
+        Shape, ShapeError = internal(env.sh, "Shape"), internal(env.sh, "ShapeError")
+        belem = internal(env.sh, "_broadcast_elem")
+        rshapes = [internal(Shape, "from_simple")(None if s_ is None else tuple(s_)) for s_ in shapes]
+        idx = [-5, -4, -3, -2, -1, 0, 1, 2, 3, 4]
+        nr = 5
+        real_sh = []
+        for a in rshapes:
+            items = []
+            for i in idx:
+                try:
+                    items.append([a[i].to_simple()])
+                except (ShapeError, IndexError) as e:
+                    items.append(type(e).__name__)
+                except Exception as e:  # noqa: BLE001
+                    items.append(type(e).__name__)
+            rd = None
+            if a.dims is not None:
+                rd = []
+                for i in range(nr):
+                    try:
+                        rd.append(a[-1 - i].to_simple())
+                    except IndexError:
+                        rd.append(1)
+            real_sh.append({"truthy": bool(a), "items": items, "rdim": rd})
+        real_types = [env.mk(t) for t in types]
+        real_ty = []
+        for t in real_types:
+            row = {}
+            for nm, meth in (("tensor", "unwrap_tensor"), ("sequence", "unwrap_sequence"), ("optional", "unwrap_optional")):
+                try:
+                    r = internal(t, meth)()
+                    row[nm] = "self" if r is t else "other"
+                except TypeError:
+                    row[nm] = "TypeError"
+                except NotObservable:
+                    raise
+                except Exception as e:  # noqa: BLE001
+                    row[nm] = type(e).__name__
+            row["concrete"] = bool(internal(t, "_is_concrete"))
+            real_ty.append(row)
+        o = drv.ask_many("C13", [{"op": "glue", "types": [env.enc(t) for t in real_types], "shapes": shapes, "idx": idx, "nrdim": nr}])[0]
+        if "error" in o:
+            note("bc", f"glue: {o}")
+        else:
+            for sh_, mo, re_ in zip(shapes, o["shapes"], real_sh):
+                if mo != re_:
+                    note("bc", f"Shape{sh_}: __bool__ / __getitem__{idx} / shape[-1-i]: model {mo} real {re_}"[:500])
+                    break
+            for t_, mo, re_ in zip(types, o["types"], real_ty):
+                if mo != re_:
+                    note("sub", f"{t_}: unwrap_* / _is_concrete: model {mo} real {re_}")
+                    break
+        # the statement of broadcast_dimwise on the real functions
+        n_pairs = n_dims = n_raise = 0
+        for i, a in enumerate(rshapes):
+            if a.dims is None:
+                continue
+            for j, b in enumerate(rshapes):
+                if b.dims is None:
+                    continue
+                c = state["real_bc"][i * m + j]
+                la, lb = len(a.dims), len(b.dims)
+                if c == "ShapeError":  # broadcast_raises_iff_axis_clash: some right-aligned axis clashes
+                    n_raise += 1
+                    clash = False
+                    for k in range(max(la, lb)):
+                        try:
+                            belem(a[-1 - k].to_simple() if k < la else 1, b[-1 - k].to_simple() if k < lb else 1)
+                        except ShapeError:
+                            clash = True
+                            break
+                    if not clash:
+                        note("bc", f"broadcast_raises_iff_axis_clash: Shape{shapes[i]}.broadcast({shapes[j]}) raises ShapeError but no right-aligned axis clashes")
+                    continue
+                if not isinstance(c, list) or c[0] is None:
+                    continue
+                c = c[0]
+                n_pairs += 1
+                if len(c) != max(la, lb):
+                    note("bc", f"broadcast_dimwise: Shape{shapes[i]}.broadcast({shapes[j]}) = {c}: rank is not the larger rank")
+                    continue
+                for k in range(max(la, lb)):
+                    x = a[-1 - k].to_simple() if k < la else 1
+                    y = b[-1 - k].to_simple() if k < lb else 1
+                    n_dims += 1
+                    try:
+                        z = belem(x, y)
+                    except ShapeError:
+                        z = "ShapeError"
+                    if z != c[-1 - k] or type(z) is not type(c[-1 - k]):
+                        note("bc", f"broadcast_dimwise: Shape{shapes[i]}.broadcast({shapes[j]}) = {c}: dimension {-1 - k} is not "
+                                   f"_broadcast_elem({x!r}, {y!r}) = {z!r}")
+                        break
+        ck.count(None, len(rshapes) * (len(idx) + nr + 1) + 4 * len(real_types) + n_dims)
+        ck.cov["type_layer_glue"] = {
+            "shapes": len(rshapes), "int_indices": idx, "getitem_calls": len(rshapes) * len(idx),
+            "getitem_outcomes": {k: sum(1 for r in real_sh for it in r["items"] if (it if isinstance(it, str) else "dimension") == k)
+                                 for k in ("dimension", "IndexError", "ShapeError")},
+            "types": len(real_types),
+            "unwrap_outcomes": {k: sum(1 for r in real_ty for nm in ("tensor", "sequence", "optional") if r[nm] == k) for k in ("self", "TypeError")},
+            "concrete": sum(1 for r in real_ty if r["concrete"]), "not_concrete": sum(1 for r in real_ty if not r["concrete"]),
+            "broadcast_dimwise_pairs": n_pairs, "broadcast_dimwise_dimensions": n_dims, "raising_pairs_with_a_clashing_axis": n_raise}
+
+    if drv and "real_bc" in state:
+        guard("type-layer glue (__getitem__, __bool__, unwrap_*, _is_concrete, broadcast dimension-wise)", facet_glue)
+
     def facet_broadcast_arity():
         """0 / 1 / n operands where the signature takes them (numpy broadcasts any number of shapes)."""
         lo, hi = broadcast_arity(env)
